@@ -6,6 +6,7 @@ package main
 import (
 	"context"
 	"net"
+	"runtime"
 	"encoding/json"
 	"fmt"
 	"strings"
@@ -46,6 +47,7 @@ var ccActNames = []string{"none", "cancel", "close"}
 
 type ccStep struct {
 	Close bool `json:"close,omitempty"` // a Client.Close() between calls; otherwise a call
+	Now   bool `json:"now,omitempty"`   // start the call right away, without waiting for the goroutines to settle
 	Trig  int  `json:"trig,omitempty"`
 	Act   int  `json:"act,omitempty"`
 }
@@ -278,9 +280,16 @@ func ccRun(sc ccScenario, keepEvents bool) (obs ccObs) {
 	if !obs.DialOK {
 		return obs
 	}
-	w.Settle(ccSettleTimeout)
 	ncall := 0
-	for _, st := range sc.Steps {
+	for si, st := range sc.Steps {
+		if st.Now && !st.Close {
+			// no settling: the call races with whatever the connection goroutines are doing
+			for k := (len(sc.Plans)*7 + si*3 + len(sc.Steps)) % 4; k > 0; k-- {
+				runtime.Gosched()
+			}
+		} else {
+			w.Settle(ccSettleTimeout)
+		}
 		if st.Close {
 			closedSoFar = true
 			o := ccCallObs{IsClose: true, Res: ccROk}
@@ -292,7 +301,6 @@ func ccRun(sc ccScenario, keepEvents bool) (obs ccObs) {
 				}()
 				_ = client.Close()
 			}()
-			w.Settle(ccSettleTimeout)
 			o.Dials = w.Dials()
 			obs.Steps = append(obs.Steps, o)
 			if o.Res == ccRPanic {
@@ -302,7 +310,7 @@ func ccRun(sc ccScenario, keepEvents bool) (obs ccObs) {
 		}
 		id := fmt.Sprintf("k%d", ncall)
 		ncall++
-		expectOK := st.Trig == ccTNone && !closedSoFar && ccFutureClean(sc, w.ReqCounts())
+		expectOK := st.Trig == ccTNone && !st.Now && !closedSoFar && ccFutureClean(sc, w.ReqCounts())
 		t0 := time.Now()
 		ctx, cancel := context.WithCancel(context.Background())
 		var actOnce sync.Once
@@ -393,7 +401,6 @@ func ccRun(sc ccScenario, keepEvents bool) (obs ccObs) {
 		} else {
 			o.Res, o.Got = res.res, res.got
 		}
-		w.Settle(ccSettleTimeout)
 		o.Ntx = ccCountID(w.Received(), id)
 		o.Dials = w.Dials()
 		obs.Steps = append(obs.Steps, o)
@@ -425,10 +432,16 @@ func ccDescribe(sc ccScenario) string {
 	for _, st := range sc.Steps {
 		if st.Close {
 			sb.WriteString("Close ")
-		} else if st.Trig == 0 {
-			sb.WriteString("Call ")
 		} else {
-			fmt.Fprintf(&sb, "Call[%s@%s] ", ccActNames[st.Act], ccTrigNames[st.Trig])
+			name := "Call"
+			if st.Now {
+				name = "CallNow"
+			}
+			if st.Trig == 0 {
+				sb.WriteString(name + " ")
+			} else {
+				fmt.Fprintf(&sb, "%s[%s@%s] ", name, ccActNames[st.Act], ccTrigNames[st.Trig])
+			}
 		}
 	}
 	return strings.TrimSpace(sb.String())
